@@ -19,6 +19,23 @@ CHECKS = {
             "MINIMUM_DISTINCT_QINDEX (read from the source) and not below; no exception for idx>=0.",
             T_TIE, "Coq proof (lia over Euclidean division) about a model regenerated from the Python source; differential run validates the translator",
             "DESIGN.md 3 C12"),
+    "C03": (True,
+            "Theorems (all slice grids, all fragment sizes): the encoder's fragment split always satisfies the validator's fragment "
+            "continuity rule (zero-slice first fragment, raster-contiguous offsets, never more than the remaining slices, complete at the end) "
+            "and consecutive/legal numbering satisfies the numbering rule. PARTIAL: the end-to-end claim (stream accepted, decoded pictures carry "
+            "the configured parameters and numbers) for the whole configuration space is decided by the differential run encoder -> "
+            "serialiser -> validator over random configurations, not by a theorem.",
+            C_TIE + "Fragment-split model compared with make_picture_data_units on a grid; field validity inside data units is outside the model.",
+            "Coq proof of the fragment-split/continuity refinement + differential encoder->validator run over a random configuration space",
+            "DESIGN.md 3 C03"),
+    "C05": (True,
+            "Theorems: the picture-number lists of the picture_numbers generator (regenerated from the source on every run) and any "
+            "consecutive numbering with an even first field satisfy the validator's numbering rule. PARTIAL: conformance, unique names, and "
+            "'encoding variants decode to the pictures of the plain encoding / exact mid-grey / documented numbers' are decided by running every "
+            "registered generator on random small configurations through the real serialiser and validator.",
+            T_TIE + "Metamorphic equivalences are checked on the implementation only (differential run).",
+            "Coq proof over source-extracted test-case constants + differential run of all decoder test case generators",
+            "DESIGN.md 3 C05"),
 }
 
 NOT_YET = "check not built yet (work in progress; see DESIGN.md section 7 work order)"
